@@ -95,3 +95,122 @@ Qed.
 
 Theorem exp_sum (l : list R) : exp (sumR l) = prodR (map exp l).
 Proof. induction l as [|x r IH]; cbn; [apply exp_0 | rewrite exp_plus, IH; reflexivity]. Qed.
+
+(* ---- all eight models at zero service time ------------------------------------------------- *)
+(* An element's log-reliability is  - c * V * sum over the orientation grid of
+   w(o) * (max(se(p, o), 0))^m, where se is the model's equivalent stress of the
+   principal values p on the crack orientation o.  Everything the property says
+   about scaling follows from se being positively homogeneous of degree one. *)
+Section Orientation.
+Variable pw : R -> R -> R.
+Hypothesis pw_nonneg : forall x m, 0 <= x -> 0 <= pw x m.
+Hypothesis pw_mult : forall l x m, 0 <= l -> 0 <= x -> pw (l * x) m = pw l m * pw x m.
+Hypothesis pw_ge1 : forall l m, 1 <= l -> 1 <= pw l m.
+
+Variable O : Type.                                   (* orientations of the quadrature grid *)
+Variable se : R * R * R -> O -> R.                   (* equivalent stress *)
+Definition scale3 (l : R) (p : R * R * R) : R * R * R := let '(a, b, c) := p in (l * a, l * b, l * c).
+Hypothesis se_homogeneous : forall l p o, 0 <= l -> se (scale3 l p) o = l * se p o.
+
+Definition orient_sum (m : R) (p : R * R * R) (grid : list (O * R)) : R :=
+  sumR (map (fun ow => snd ow * pw (pos (se p (fst ow))) m) grid).
+Definition logR (c V m : R) (p : R * R * R) (grid : list (O * R)) : R := - c * V * orient_sum m p grid.
+
+Lemma orient_sum_nonneg m p grid : (forall ow, In ow grid -> 0 <= snd ow) -> 0 <= orient_sum m p grid.
+Proof.
+  unfold orient_sum. induction grid as [|[o w] r IH]; intros Hw; cbn [map sumR fst snd]; [lra|].
+  assert (0 <= w) by (apply (Hw (o, w)); left; reflexivity).
+  pose proof (pw_nonneg (pos (se p o)) m (pos_nonneg _)).
+  assert (0 <= w * pw (pos (se p o)) m) by (apply Rmult_le_pos; assumption).
+  specialize (IH (fun ow H' => Hw ow (or_intror H'))). lra.
+Qed.
+
+Theorem logR_nonpos c V m p grid : 0 <= c -> 0 <= V -> (forall ow, In ow grid -> 0 <= snd ow) -> logR c V m p grid <= 0.
+Proof.
+  intros Hc HV Hw. unfold logR. pose proof (orient_sum_nonneg m p grid Hw).
+  assert (0 <= c * V * orient_sum m p grid) by (apply Rmult_le_pos; [apply Rmult_le_pos|]; assumption). lra.
+Qed.
+
+Theorem logR_volume_linear c V V' m p grid : logR c (V + V') m p grid = logR c V m p grid + logR c V' m p grid.
+Proof. unfold logR. ring. Qed.
+
+Theorem logR_homogeneous c V m p grid l : 0 <= l -> logR c V m (scale3 l p) grid = pw l m * logR c V m p grid.
+Proof.
+  intros Hl. unfold logR.
+  assert (E : orient_sum m (scale3 l p) grid = pw l m * orient_sum m p grid).
+  { unfold orient_sum. induction grid as [|[o w] r IH]; cbn [map sumR fst snd]; [ring|].
+    rewrite IH, (se_homogeneous l p o Hl), (pos_scale l _ Hl), (pw_mult l _ m Hl (pos_nonneg _)). ring. }
+  rewrite E. ring.
+Qed.
+
+Theorem logR_scale_antitone c V m p grid l :
+  0 <= c -> 0 <= V -> (forall ow, In ow grid -> 0 <= snd ow) -> 1 <= l -> logR c V m (scale3 l p) grid <= logR c V m p grid.
+Proof.
+  intros Hc HV Hw Hl. rewrite logR_homogeneous by lra.
+  pose proof (pw_ge1 l m Hl). pose proof (logR_nonpos c V m p grid Hc HV Hw).
+  set (P := logR c V m p grid) in *. set (L := pw l m) in *.
+  assert (0 <= (L - 1) * (- P)) by (apply Rmult_le_pos; lra). lra.
+Qed.
+End Orientation.
+
+(* ---- the equivalent stresses of the models are positively homogeneous ------------------------ *)
+(* on a crack whose normal has direction cosines with squares (c1, c2, c3) *)
+Definition sig_n (p : R * R * R) (o : R * R * R) : R := let '(a, b, c) := p in let '(c1, c2, c3) := o in a * c1 + b * c2 + c * c3.
+Definition sig_tot2 (p : R * R * R) (o : R * R * R) : R :=
+  let '(a, b, c) := p in let '(c1, c2, c3) := o in (a * a) * c1 + (b * b) * c2 + (c * c) * c3.
+Definition tau (p o : R * R * R) : R := sqrt (sig_tot2 p o - sig_n p o * sig_n p o).
+
+Lemma sqrt_scale l x : 0 <= l -> sqrt (l * l * x) = l * sqrt x.
+Proof.
+  intros Hl. destruct (Rle_dec 0 x) as [P | N].
+  - rewrite sqrt_mult by (try apply Rmult_le_pos; assumption). rewrite sqrt_square by exact Hl. reflexivity.
+  - assert (x <= 0) by lra. rewrite (sqrt_neg_0 x H), Rmult_0_r. apply sqrt_neg_0.
+    assert (0 <= l * l) by (apply Rmult_le_pos; assumption).
+    replace (l * l * x) with (- ((l * l) * (- x))) by ring.
+    assert (0 <= (l * l) * (- x)) by (apply Rmult_le_pos; lra). lra.
+Qed.
+
+Lemma sig_n_scale l p o : sig_n (scale3 l p) o = l * sig_n p o.
+Proof. destruct p as [[a b] c], o as [[c1 c2] c3]. unfold sig_n, scale3. ring. Qed.
+
+Lemma tau_scale l p o : 0 <= l -> tau (scale3 l p) o = l * tau p o.
+Proof.
+  intros Hl. unfold tau. rewrite sig_n_scale. rewrite <- (sqrt_scale l _ Hl). f_equal.
+  destruct p as [[a b] c], o as [[c1 c2] c3]. unfold sig_tot2, sig_n, scale3. ring.
+Qed.
+
+(* MTS (Griffith: b = 1; penny-shaped: b = 1/(1 - nu/2)) and the Shetty mixed-mode models
+   (Griffith: b = 2/cbar; penny-shaped: b = 4/(cbar (2 - nu))) *)
+Definition se_half (b : R) (p o : R * R * R) : R := / 2 * (sig_n p o + sqrt (sig_n p o * sig_n p o + (b * tau p o) * (b * tau p o))).
+(* coplanar strain energy (Griffith: b = 1; penny-shaped: b = 1/(1 - nu/2)) *)
+Definition se_cse (b : R) (p o : R * R * R) : R := sqrt (sig_n p o * sig_n p o + (b * tau p o) * (b * tau p o)).
+(* normal stress averaging (WNTSA) *)
+Definition se_normal (p o : R * R * R) : R := sig_n p o.
+
+Theorem se_cse_homogeneous b l p o : 0 <= l -> se_cse b (scale3 l p) o = l * se_cse b p o.
+Proof.
+  intros Hl. unfold se_cse. rewrite sig_n_scale, (tau_scale l p o Hl), <- (sqrt_scale l _ Hl). f_equal. ring.
+Qed.
+
+Theorem se_half_homogeneous b l p o : 0 <= l -> se_half b (scale3 l p) o = l * se_half b p o.
+Proof.
+  intros Hl. unfold se_half. fold (se_cse b (scale3 l p) o) (se_cse b p o).
+  rewrite se_cse_homogeneous by exact Hl. rewrite sig_n_scale. ring.
+Qed.
+
+Theorem se_normal_homogeneous l p o : 0 <= l -> se_normal (scale3 l p) o = l * se_normal p o.
+Proof. intros _. apply sig_n_scale. Qed.
+
+(* a purely compressive state has no tensile normal stress on any plane, so the averaged normal
+   stress model (and PIA) gives exactly reliability one *)
+Theorem compressive_no_tensile_normal p o :
+  (let '(a, b, c) := p in a <= 0 /\ b <= 0 /\ c <= 0) -> (let '(c1, c2, c3) := o in 0 <= c1 /\ 0 <= c2 /\ 0 <= c3) ->
+  pos (se_normal p o) = 0.
+Proof.
+  destruct p as [[a b] c], o as [[c1 c2] c3]. intros (Ha & Hb & Hc) (H1 & H2 & H3).
+  unfold pos, se_normal, sig_n. apply Rmax_right.
+  assert (a * c1 <= 0) by (rewrite <- (Rmult_0_l c1); apply Rmult_le_compat_r; assumption).
+  assert (b * c2 <= 0) by (rewrite <- (Rmult_0_l c2); apply Rmult_le_compat_r; assumption).
+  assert (c * c3 <= 0) by (rewrite <- (Rmult_0_l c3); apply Rmult_le_compat_r; assumption).
+  lra.
+Qed.
